@@ -12,7 +12,9 @@ Kernels (contract-based, real source):
     accessors' values and is NOT marked (reading never changes what is saved);
   * ground (complete): colour channel round trip round((c/255)*255) == c for all 256 values through the real rgb(); font family <-> name
     tables are mutually inverse on every family the library knows.
-Stroke-run patching in the file, style archives and reload: bounded stand-in with a last-writer-wins edge model.
+  * model.add_stroke: per-run cut assertion (any existing run, any new stroke): an existing run never gains a cell, never loses one outside the
+    new stroke, split-off pieces are copies of it, it is replaced only by a full copy of a covering stroke; the new stroke ends up in the list.
+Style archives, merged cells, reload and whole stroke histories: bounded stand-in with a last-writer-wins edge model.
 """
 import ast
 import os
@@ -263,6 +265,181 @@ def build():
         return run
     plan.ground.append(("colour-channels-round-trip(all 256 values)", native_ground("ground_colours")))
     plan.ground.append(("font-family-name-tables-inverse(all families)", native_ground("ground_fonts")))
+
+
+
+    # ================================================================== update_cell_styles: the de-duplication key reads every cell-level attribute
+    def fingerprint_complete():
+        fi = extract.find_function("model:_NumbersModel.update_cell_styles")
+        chains = set()
+        for n in ast.walk(fi.node):
+            if isinstance(n, ast.Attribute):
+                parts, cur = [], n
+                while isinstance(cur, ast.Attribute):
+                    parts.append(cur.attr)
+                    cur = cur.value
+                if isinstance(cur, ast.Name) and cur.id == "cell":
+                    parts = list(reversed(parts))
+                    if parts and parts[0] in ("style", "_style"):
+                        chains.add(".".join(parts[1:]))
+        need = {"alignment.vertical", "first_indent", "left_indent", "right_indent", "text_inset", "text_wrap", "bg_color.r", "bg_color.g", "bg_color.b",
+                "bg_image.filename"}
+        missing = sorted(need - chains)
+        if not chains:
+            return False, "anchor lost: update_cell_styles reads no cell.style attribute", 0
+        return (not missing), ([f"the key that decides whether two cells share one saved cell style does not read {m}: styles that differ only there are merged"
+                                for m in missing][:5]), len(need)
+    plan.ground.append(("cell-style-key-reads-every-cell-attribute", fingerprint_complete))
+
+    # ================================================================== add_stroke: how the stored runs of one line are patched
+    # Local (per existing run) contract, proved as a cut assertion at the end of the loop body: an existing run never gains a cell, never
+    # loses a cell outside the new stroke, is trimmed/split only by pieces that keep its own value and order, and is replaced only by a
+    # full copy of the new stroke when the new stroke covers it; after the loop the new stroke is in the list (patched or appended).
+    A = z3.ArraySort
+
+    class StrokeRuns(Custom):
+        def __init__(self, n, O, Lh):
+            self.n, self.O, self.Lh = n, O, Lh
+            self.appended = []
+            self.copied_new = z3.BoolVal(False)
+            self.current = None
+
+        def length(self, ex):
+            return self.n
+
+        def getitem(self, ex, idx, line):
+            if isinstance(idx, int) and idx == -1:
+                if not self.appended:
+                    raise Unsupported("stroke_runs[-1] with nothing appended on this path")
+                return self.appended[-1]
+            i = T(idx)
+            o0, l0 = z3.Select(self.O, i), z3.Select(self.Lh, i)
+            run = PObj("StrokeRun", {"origin": wrap(o0), "length": wrap(l0), "g_o0": o0, "g_l0": l0, "g_kind": "old", "g_owner": ("old", i)})
+            self.current = run
+            return run
+
+        def method(self, ex, name, args, kwargs, line):
+            if name == "append":
+                self.appended.append(args[0])
+                return None
+            if name == "sort":
+                return None
+            raise Unsupported(f"stroke_runs.{name}")
+
+    def run_copy(ex, o, a, k, l):
+        src = a[0]
+        o.fields["origin"], o.fields["length"] = src.fields["origin"], src.fields["length"]
+        o.fields["g_kind"] = src.fields["g_kind"]
+        o.fields["g_owner"] = src.fields.get("g_owner")
+        if src.fields["g_kind"] == "new":
+            runs = ex.entry_env["g_runs"]
+            runs.copied_new = z3.BoolVal(True)
+    ctx.method_models[("StrokeRun", "CopyFrom")] = run_copy
+    ctx.constructors["StrokeRunArchive"] = lambda ex, args, kwargs, line: PObj("StrokeRun", {"g_kind": "blank"})
+    ctx.constructors["Reference"] = lambda ex, args, kwargs, line: PObj("Reference", dict(kwargs))
+    ctx.extra_globals["TSTArchives"] = PObj("module", {"StrokeLayerArchive": PObj("module", {"StrokeRunArchive": ClassRef("StrokeRunArchive")})})
+    ctx.extra_globals["TSPMessages"] = PObj("module", {"Reference": ClassRef("Reference")})
+    ctx.method_models[("_NumbersModelS", "create_stroke")] = lambda ex, o, a, k, l: PObj("StrokeRun", {"origin": a[0], "length": a[1], "g_kind": "new"})
+
+    def as_entry(matching):
+        def entry(ex):
+            n = z3.Int(fresh_name("n_runs"))
+            ex.assume(n >= 0)
+            runs = StrokeRuns(n, z3.Const(fresh_name("run_origin"), A(Int, Int)), z3.Const(fresh_name("run_length"), A(Int, Int)))
+            rci = ex.fresh("int", "row_column_index")
+            layer = PObj("StrokeLayer", {"row_column_index": rci, "stroke_runs": runs})
+            lid = PObj("Reference", {"identifier": ex.fresh("int", "layer_id")})
+            side_lists = {f: PList([lid]) for f in ("top_row_stroke_layers", "right_column_stroke_layers", "bottom_row_stroke_layers", "left_column_stroke_layers")}
+            sidecar = PObj("Sidecar", dict(side_lists, max_order=ex.fresh("int", "max_order"), row_count=0, column_count=0))
+            table_obj = PObj("TableObj", {"stroke_sidecar": PObj("Reference", {"identifier": ex.fresh("int", "sidecar_id")}),
+                                          "number_of_rows": ex.fresh("int", "nrows"), "number_of_columns": ex.fresh("int", "ncols")})
+            row, col = ex.fresh("int", "row"), ex.fresh("int", "col")
+            length = ex.fresh("int", "length")
+            ex.assume(length.t >= 1)
+            if matching:
+                ex.assume(rci.t == row.t)
+            else:
+                ex.assume(rci.t != row.t)
+            return {"self": PObj("_NumbersModelS", {"g_new_layers": []}), "table_id": ex.fresh("int", "table_id"), "row": row, "col": col, "side": "top",
+                    "border_value": PObj("BorderV", {"_order": ex.fresh("int", "old_order")}), "length": length,
+                    "g_runs": runs, "g_layer": layer, "g_sidecar": sidecar, "g_table": table_obj, "g_max0": sidecar.fields["max_order"]}
+        return entry
+
+    def m_create_layer(ex, o, a, k, l):
+        layer = PObj("StrokeLayer", {"row_column_index": a[1].d["row_column_index"] if isinstance(a[1], PDict) else None, "stroke_runs": StrokeRuns(z3.IntVal(0), z3.K(Int, z3.IntVal(0)), z3.K(Int, z3.IntVal(0)))})
+        ex.entry_env["self"].fields["g_new_layers"].append(layer)
+        return (ex.fresh("int", "new_layer_id"), layer)
+    ctx.method_models[("ObjectsS", "create_object_from_dict")] = m_create_layer
+
+    def in_rng(x, o, ln):
+        return z3.And(o <= x, x < o + ln)
+
+    def as_step(ex, env):
+        runs = env["g_runs"]
+        run = runs.current
+        o, Ln = T(env["origin"]), T(env["length"])
+        s0, l0 = run.fields["g_o0"], run.fields["g_l0"]
+        x = z3.Int(fresh_name("slot"))
+        before = in_rng(x, s0, l0)
+        in_new = in_rng(x, o, Ln)
+        if run.fields["g_kind"] == "new":  # replaced by a full copy of the new stroke: allowed only if the new stroke covers the old run
+            return z3.And(o <= s0, s0 + l0 <= o + Ln, T(run.fields["origin"]) == o, T(run.fields["length"]) == Ln)
+        pieces = [in_rng(x, T(run.fields["origin"]), T(run.fields["length"]))]
+        ok_len = [T(run.fields["length"]) >= 0]
+        for t_ in runs.appended:
+            if t_.fields.get("g_kind") == "new":
+                continue
+            if t_.fields.get("g_owner") != run.fields.get("g_owner") or t_.fields.get("g_kind") != "old":
+                return z3.BoolVal(False)  # a piece split off an old run must be a copy of that run
+            pieces.append(in_rng(x, T(t_.fields["origin"]), T(t_.fields["length"])))
+            ok_len.append(T(t_.fields["length"]) >= 0)
+        after = z3.Or(*pieces)
+        return z3.And(*ok_len, z3.ForAll([x], z3.And(z3.Implies(z3.Not(in_new), after == before), z3.Implies(z3.And(in_new, after), before))))
+    as_step.__name__ = ("per existing run: outside the new stroke it covers exactly the cells it covered; inside it gains nothing; pieces split off are "
+                        "copies of it; it is replaced by the new stroke only if the new stroke covers it; no negative lengths")
+
+    def as_inv(ex, env):
+        runs = env["g_runs"]
+        k = z3.Int(fresh_name("rk"))
+        sp = env["stroke_patched"]
+        spt = sp.t if isinstance(sp, SBool) else z3.BoolVal(bool(sp))
+        return z3.And(spt == runs.copied_new, T(env["origin"]) == T(env["col"]), T(env["length"]) >= 1,
+                      z3.ForAll([k], z3.Implies(z3.And(0 <= k, k < runs.n), z3.Select(runs.Lh, k) >= 1)))
+
+    def as_havoc(ex, env):
+        runs = env["g_runs"]
+        runs.copied_new = z3.Bool(fresh_name("copied_new"))
+        runs.appended = []
+
+    def as_requires(ex, env):
+        runs = env["g_runs"]
+        k = z3.Int(fresh_name("rk"))
+        return z3.ForAll([k], z3.Implies(z3.And(0 <= k, k < runs.n), z3.Select(runs.Lh, k) >= 1))
+    as_requires.__name__ = "stored runs are non-empty"
+
+    def as_post(matching):
+        def post(ex, env):
+            b = env["border_value"].fields
+            stamped = z3.And(T(b["_order"]) == env["g_max0"].t + 1, T(env["g_sidecar"].fields["max_order"]) == env["g_max0"].t + 1)
+            runs = env["g_runs"] if matching else None
+            if matching:
+                new_app = any(t_.fields.get("g_kind") == "new" for t_ in runs.appended)
+                return z3.And(stamped, z3.Or(runs.copied_new, z3.BoolVal(new_app)))
+            layers = env["self"].fields["g_new_layers"]
+            ok = len(layers) == 1 and any(t_.fields.get("g_kind") == "new" for t_ in layers[0].fields["stroke_runs"].appended)
+            return z3.And(stamped, z3.BoolVal(ok))
+        post.__name__ = ("the stroke is stamped with max_order + 1; " + ("the new stroke is in the line's run list (an old run it covers was replaced by a full "
+                         "copy, or it was appended)" if matching else "a new layer holding exactly the new stroke is created for a line without one"))
+        return post
+    as_opaque = {"self.objects[table_id]": lambda ex, env: ex.entry_env["g_table"],
+                 "self.objects[table_obj.stroke_sidecar.identifier]": lambda ex, env: ex.entry_env["g_sidecar"],
+                 "self.objects[layer_id.identifier]": lambda ex, env: ex.entry_env["g_layer"],
+                 "self.objects.create_object_from_dict('CalculationEngine', {'row_column_index': row_column_index}, TSTArchives.StrokeLayerArchive)":
+                     lambda ex, env: m_create_layer(ex, None, ["CalculationEngine", None], {}, 0)}
+    for lab, matching in (("line-has-runs", True), ("line-without-layer", False)):
+        plan.target(Contract("model:_NumbersModel.add_stroke", label=lab, entry=as_entry(matching), requires=[as_requires], ensures=[as_post(matching)],
+                             safety="fork", opaque=as_opaque, search=srch("search_borders"),
+                             loops={2: LoopSpec([as_inv], index="_i", havoc=[as_havoc], steps=[as_step], kinds={"stroke_patched": "bool"})}))
 
     for side in SIDES:
         plan.target(Contract("model:_NumbersModel.set_cell_border", label=side, entry=scb_entry(side), ensures=[scb_post(side)], safety="fork",
